@@ -12,7 +12,8 @@ package c03
 // imported name in the role of its kind: a value in an expression (recorded type checked), a
 // function in a call, a type in an annotation, a template in an `impl` block, a trigger in a
 // `trigger` statement. Modules: the builtin module `net` of the testing host (values and a type),
-// a user module (functions, globals, types; directly or through a second user module) and a
+// a user module (functions, globals, types; directly or through a second user module), a user
+// module whose functions extract its singletons (`dev`: an extraction is no argument of the call) and a
 // module of the harness's own host (`hvkinds`: values, types, templates and a trigger at once, so
 // that every kind can follow every other one).
 //
@@ -193,7 +194,64 @@ fn main() {}
 		typeItem("Shape", tyShape, "new { w: 1, h: 2 }"),
 		typeItem("Id", tInt, "7"),
 	}}
-	return []impModule{kinds, net, lib}
+	// dev: functions that extract singletons of THEIR module. An extraction (`lamp: $Lamp`) is no
+	// argument: the importer calls the function with the ordinary parameters only, whatever
+	// precedes them — no extraction, one, two; nothing, one or several ordinary parameters after
+	// it — and an ordinary function declared next to them keeps all of its parameters.
+	call := func(name, ret string, args ...string) impItem {
+		return impItem{name: name, kind: "value", body: func(g *impGen) string {
+			as := make([]string, 0, len(args)/2)
+			for k := 0; k+1 < len(args); k += 2 {
+				as = append(as, mk("arg", args[k], args[k+1]))
+			}
+			return fmt.Sprintf("    let %s = %s;\n", g.let(), mk("ty", ret, g.other(name, "type")+"("+mk("args", fmt.Sprint(len(as)), strings.Join(as, ", "))+")"))
+		}}
+	}
+	dev := impModule{name: "dev", mods: map[string]string{"dev": `
+$Lamp = { level: int, lit: bool };
+$Count = int;
+
+pub type Level = int;
+
+pub fn get_level(lamp: $Lamp) -> int {
+    lamp.level
+}
+
+pub fn set_level(lamp: $Lamp, value: Level) -> int {
+    lamp.level = value;
+    lamp.level
+}
+
+pub fn blink(lamp: $Lamp, times: int, tag: str, on: bool) -> str {
+    lamp.lit = on;
+    tag + times.to_string()
+}
+
+pub fn both(lamp: $Lamp, n: $Count) -> bool {
+    lamp.lit && n > 0
+}
+
+pub fn tally(lamp: $Lamp, n: $Count, step: float, tag: str) -> str {
+    tag + (lamp.level + n).to_string() + step.to_string()
+}
+
+pub fn scale(value: int, by: float) -> float {
+    (value as float) * by
+}
+
+fn main() {
+    println(get_level(), set_level(1), blink(2, "b", true), both(), tally(0.5, "t"), scale(2, 1.5));
+}
+`}, items: []impItem{
+		call("set_level", "int", "int", "42"),
+		call("get_level", "int"),
+		call("blink", "str", "int", "3", "str", `"x"`, "bool", "true"),
+		call("both", "bool"),
+		call("tally", "str", "float", "2.5", "str", `"n"`),
+		typeItem("Level", tInt, "3"),
+		call("scale", "float", "int", "2", "float", "0.5"),
+	}}
+	return []impModule{kinds, net, lib, dev}
 }
 
 var impPrefix = map[string]string{"value": "", "type": "type ", "templ": "templ ", "trigger": "trigger "}
